@@ -14,7 +14,7 @@ def judge(chk, trace, mm):
         issues = sorted(d["save"]) + sorted({f"load:{x[1]}" for x in d["loads"]})
         for key in sorted(set(issues)):
             chk.classify(key, f"round trip (m={d['m']}): {key}; save {d['save']} loads {d['loads']} bytes {d['badbytes']} "
-                         f"want {d['wantbytes']} cpu {d['cpudiff']}", [line_of(trace, m[1])], extra=m)
+                         f"want {d['wantbytes']} cpu {d['cpudiff']}", lambda m=m, trace=trace: [line_of(trace, m[1])], extra=m)
 
 
 def run(tier, seed):
